@@ -138,6 +138,9 @@ func (c *ColMap[K, V]) DecodeColumn(r *Reader, rows int) error {
 	if err := checkRows(count); err != nil {
 		return errors.Wrap(err, "keys count")
 	}
+	if err := checkOffsets(c.Offsets); err != nil {
+		return errors.Wrap(err, "offsets")
+	}
 	if err := c.Keys.DecodeColumn(r, count); err != nil {
 		return errors.Wrap(err, "keys")
 	}
